@@ -613,6 +613,56 @@ menu "other"
 endmenu
 ''', "")
 
+# a named choice defined in two places whose definitions SHARE a member (B): B has one menu node per definition, with
+# its own prompt / condition; the later definition starts with the shared member (jump-to on that definition lands on it)
+HAND["choice_two_places_shared_member"] = ('''mainmenu "T"
+
+menu "first"
+
+    choice CH
+        prompt "ch"
+        default A
+
+        config A
+            bool "a"
+
+        config B
+            bool "b"
+
+    endchoice
+
+endmenu
+
+config EXTRA
+    bool "extra"
+    default y
+
+menu "second"
+
+    choice CH
+        prompt "ch (second place)"
+
+        config B
+            bool "b again" if EXTRA
+
+        config C
+            bool "c"
+
+    endchoice
+
+endmenu
+
+choice CH
+
+    config D
+        bool "d" if !EXTRA
+
+    config A
+        bool "a (third place)"
+
+endchoice
+''', "")
+
 HAND["implicit_submenus"] = ('''mainmenu "T"
 
 config A
@@ -1404,8 +1454,70 @@ def _classify_clean_differs(ui, D, W):
     return kind, lost
 
 
+_NUMERIC = (K.INT, K.HEX, K.FLOAT)
+
+
+def _sym_info(k):
+    """name -> (type name, visibility, 'the active range is empty: lower limit > upper limit') of every option."""
+    out = {}
+    for s in k.unique_defined_syms:
+        empty = False
+        if s.orig_type in _NUMERIC:
+            for lo, hi, cond in s.ranges:
+                if K.expr_value(cond):
+                    # bounds as Symbol.str_value reads them: a bound without a numeric value (an option that has
+                    # none right now) counts as 0
+                    def num(x, typ=s.orig_type):
+                        try:
+                            return float(x.str_value) if typ == K.FLOAT else int(x.str_value, 10 if typ == K.INT else 16)
+                        except ValueError:
+                            return 0
+
+                    empty = num(lo) > num(hi)
+                    break
+        out[s.name] = (K.TYPE_TO_STR[s.orig_type], s.visibility, empty)
+    return out
+
+
+def _dirty_cause(D, W, info):
+    """
+    Why does a session that has just loaded the tool-written bytes D want to write W != D?  Looks at the options whose
+    entries differ and returns
+      None         every differing option has an EMPTY active range (lower limit > upper limit) in that configuration:
+                   outside the property's quantifier (see _check_c16), nothing is charged;
+      ":<cause>"   every differing option (empty ranges aside) shows the same consequence of a recorded root cause;
+      ""           anything else (the plain class).
+    """
+    a, b = _assignments(D), _assignments(W)
+    names = sorted(n for n in set(a) | set(b) if a.get(n) != b.get(n))
+    causes = set()
+    for n in names:
+        typ, vis, empty = info.get(n, ("?", None, False))
+        ea, eb = a.get(n), b.get(n)
+        if empty:
+            continue
+        if ea is not None and eb is not None and typ in ("int", "hex", "float") and ea == ("", False) and eb == ("", True):
+            # unmarked `CONFIG_X=` (a user value that has no effect + no default): not loadable, comes back marked
+            causes.add(":valueless-%s-with-ineffective-user-value:marker-gained" % typ)
+        elif ea is not None and ea[1] and vis == 0:
+            # a '# default:' entry of an option that is invisible after the load: the load does not keep it
+            # (Symbol.resolve_defaults skips invisible options), the session that wrote it had kept it
+            causes.add(":marked-default-of-invisible-option-not-kept")
+        elif ea is None and eb is not None and eb[1] and vis == 0:
+            # no entry in the file (the writing session had the option at n / without a value through a default it had
+            # kept from an sdkconfig, invisible, hence unwritten); the load gives the invisible option its Kconfig default
+            causes.add(":invisible-option-absent-from-file-gets-kconfig-default")
+        else:
+            causes.add("")
+    if not names:
+        return ""
+    if not causes:
+        return None
+    return causes.pop() if len(causes) == 1 else ""
+
+
 def _fresh_needs_save(ui, D):
-    """(needs_save(), bytes it would write, snapshot) of a FRESH session started on a file with the bytes D."""
+    """(needs_save(), bytes it would write, snapshot, _sym_info) of a FRESH session started on a file with the bytes D."""
     key = (ui.case.pv, ui.case.hdr, D)
     memo = ui.case.memo
     if key in memo:
@@ -1415,7 +1527,7 @@ def _fresh_needs_save(ui, D):
         k2, st2, _cfg2 = _start(d2, ui.case.text, ui.case.rename, ui.case.pv, D, ui.case.hdr)
         ns = st2.needs_save()
         W2 = _would_write(st2, d2)
-        res = (ns, W2, _snap(k2))
+        res = (ns, W2, _snap(k2), _sym_info(k2))
     finally:
         os.environ["KCONFIG_CONFIG"] = ui.cfg
         shutil.rmtree(d2, ignore_errors=True)
@@ -1456,13 +1568,26 @@ def _check_c16(ui, action, pre):
         ui.nontrivial.add(_crc(ui.case.origin, "save", D))
         if post != pre["snap"]:
             changed = sorted(n for n in post if post[n] != pre["snap"].get(n))
+            # Only the '# default:' marker of an unmarked, valueless `CONFIG_X=` line changed (value, visibility and
+            # assignable set are the same): the consequence of the recorded root cause C02 marker-gained (a user value
+            # without effect keeps the line unmarked, the empty value is not loadable, the reload marks it).
+            types = set()
+            for n in changed:
+                sym = ui.k.syms.get(n)
+                a, b = pre["snap"].get(n), post[n]
+                if (sym is not None and sym.orig_type in _NUMERIC and a is not None and a[:3] == b[:3] and a[0] == ""
+                        and a[3] == "CONFIG_%s=\n" % n and b[3] == "# default:\nCONFIG_%s=\n" % n):
+                    types.add(K.TYPE_TO_STR[sym.orig_type])
+                else:
+                    types.add(None)
+            sfx = ":valueless-%s-with-ineffective-user-value:marker-gained" % types.pop() if len(types) == 1 and None not in types else ""
             return _Violation(
-                "save-changes-configuration", CONTRACTS["C16"][2],
+                "save-changes-configuration" + sfx, CONTRACTS["C16"][2],
                 "the save flow (write_config + reload_sdkconfig_file) changed %s: %s -> %s" % (
                     changed[:4], [pre["snap"].get(n) for n in changed[:2]], [post[n] for n in changed[:2]]),
                 "snap(k) != pre", need_pre=True)
         if ns:
-            fresh_ns, W2, _s2 = _fresh_needs_save(ui, D)
+            fresh_ns, W2, _s2, _i2 = _fresh_needs_save(ui, D)
             if not fresh_ns:
                 cls = "after-save-dirty:session-only"
                 why = ("a fresh session on the saved file reports clean: the running session kept a stale baseline "
@@ -1475,11 +1600,19 @@ def _check_c16(ui, action, pre):
                 why = "a fresh session on the saved file wants to save again as well (%s): %s" % (sub, _diff_lines(D, W2))
             return _Violation(cls, CONTRACTS["C16"][1],
                               "needs_save() is True immediately after a successful save; " + why, "st.needs_save()")
-        fresh_ns, W2, s2 = _fresh_needs_save(ui, D)
+        fresh_ns, W2, s2, i2 = _fresh_needs_save(ui, D)
         if fresh_ns:
-            return _Violation("fresh-session-dirty-on-saved-file", CONTRACTS["C16"][1],
-                              "the running session is clean after the save, a fresh session on the same file is not: "
-                              + _diff_lines(D, W2), "fresh_dirty(d, TEXT, RENAME, PV, HDR, cfg)")
+            # Precondition (quantifier "well-formed Kconfig trees"): no differing option has an EMPTY active range.
+            # The documentation defines `range` by a lower and an upper limit of an allowed interval; with lower > upper
+            # (bounds given by other options, under the current values) no value is allowed, clamping maps the upper
+            # limit to the lower one and back, and NO file can be a fix-point of load + write.  drv_eval excludes the
+            # same states ("empty range (low > high)").  Only sessions whose whole difference lies in such options
+            # are dropped.
+            cause = _dirty_cause(D, W2, i2)
+            if cause is not None:
+                return _Violation("fresh-session-dirty-on-saved-file" + cause, CONTRACTS["C16"][1],
+                                  "the running session is clean after the save, a fresh session on the same file is not: "
+                                  + _diff_lines(D, W2), "fresh_dirty(d, TEXT, RENAME, PV, HDR, cfg)")
 
     if kind == "start" and ui.case.main_kind.startswith("tool"):
         ui.evaluations += 1
@@ -1489,9 +1622,11 @@ def _check_c16(ui, action, pre):
             a, b = _assignments(D), _assignments(W)
             sub = "same-assignments" if a == b else (
                 "marker-only" if {x: v[0] for x, v in a.items()} == {x: v[0] for x, v in b.items()} else "values")
-            return _Violation("tool-written-file-dirty-at-start:" + sub, CONTRACTS["C16"][3],
-                              "session start on a file written by the tool's own save flow (%s): needs_save() is True; %s"
-                              % (ui.case.main_kind, _diff_lines(D, W)), "st.needs_save()")
+            cause = _dirty_cause(D, W, _sym_info(ui.k))  # None: only options with an empty active range differ (see above)
+            if cause is not None:
+                return _Violation("tool-written-file-dirty-at-start:" + sub + cause, CONTRACTS["C16"][3],
+                                  "session start on a file written by the tool's own save flow (%s): needs_save() is True; %s"
+                                  % (ui.case.main_kind, _diff_lines(D, W)), "st.needs_save()")
 
     if kind == "load":
         if action[1] == -1 and ui.last.get("loaded") and pre.get("ns") is False:
@@ -1887,6 +2022,29 @@ def fresh_dirty(d, text, rename, pv, hdr, cfg):
     return SCRIPT_HEAD + HELPERS + "\n" + "\n".join(body) + "\n" + SCRIPT_MAIN
 
 
+def _sweep_policy():
+    """
+    Jump-to sweep (C17: "choices defined in several places"; an option defined in several places has one row per
+    definition as well).  For a tree with an option or a choice that has more than one menu node: key / with a query
+    that matches everything, then Enter on EVERY match that is one of the menu nodes of such an option / choice (the
+    jump-to dialog lists each definition separately) -- once from the session start (normal mode, unless a jump
+    itself had to switch show-all on), once after key a, once after another key a.  Trees without multiply defined
+    items get no sweep (the random sessions cover them).
+    """
+    state = {}
+
+    def policy(ui, step):
+        if "plan" not in state:
+            m, _err = ui.st.search_nodes(".")
+            idx = [i for i, node in enumerate(m)
+                   if isinstance(node.item, (K.Symbol, K.Choice)) and len(node.item.nodes) > 1][:60]
+            state["plan"] = ([("jump", ".", i) for i in idx] + [("a",)]) * 3 if idx else []
+        plan = state["plan"]
+        return plan[step] if step < len(plan) else None
+
+    return policy
+
+
 def _minimise(case, prop, phase, actions, cls):
     """Greedy removal of actions (replayed through the same front-end model); keeps the case class."""
     best = list(actions)
@@ -1964,10 +2122,14 @@ def _work(arg):
         files_cache = {}
         alias = {}
         tree_memo = {}
-        for s in range(n_sessions):
+        # C17: two more sessions per tree (one per parser) that are not random: the jump-to sweep (_sweep_policy)
+        defs = re.findall(r"^\s*(?:config|menuconfig|choice)[ \t]+([A-Za-z0-9_]+)", text, re.M)
+        n_sweep = 2 if prop == "C17" and len(defs) != len(set(defs)) else 0  # only trees with a name defined twice
+        for s in range(n_sessions + n_sweep):
+            sweep = s >= n_sessions
             rng = random.Random(_crc(seed, origin, s, prop))
-            pv = 2 if s % 3 == 2 else 1
-            hdr = (s % 5 == 3)
+            pv = (1 + (s - n_sessions) % 2) if sweep else (2 if s % 3 == 2 else 1)
+            hdr = (s % 5 == 3) and not sweep
             key = (pv, hdr)
             if key not in files_cache:
                 files_cache[key] = _prepare_files(text, rename, pv, hdr, random.Random(_crc(seed, origin, key)))
@@ -1985,7 +2147,9 @@ def _work(arg):
                 kinds = _FILE_KINDS_16
                 phase = "ui"
             else:
-                if s % 3 == 0:
+                if sweep:
+                    mk, main = "tool", fk["tool"]
+                elif s % 3 == 0:
                     mk, main = "absent", None
                 elif s % 6 != 5 or fk.get("alt-all") is None:
                     mk, main = "tool", fk["tool"]
@@ -2007,7 +2171,10 @@ def _work(arg):
             def policy(ui, _step, rng=rng, weights=weights):
                 return _random_action(ui, rng, weights)
 
-            ui, actions, v = _run_session(case, prop, phase, policy, cfgt["steps"],
+            if sweep:
+                policy = _sweep_policy()
+
+            ui, actions, v = _run_session(case, prop, phase, policy, 400 if sweep else cfgt["steps"],
                                           stop=lambda w: alias.get(w.case_class, w.case_class) not in res["violations"])
             for c in ui.passed:
                 c = alias.get(c, c)
@@ -2129,7 +2296,9 @@ def run(prop, tier, seed, jobs):
                    "%s: %d sessions, %d keys (keys of the front end only; no API-level calls)." % (prop, sessions, actions))),
             "rule": (
                 "hand and small trees are fixed; random tree i is drawn from Random(seed*1000003+i); session s of a tree draws "
-                "its keys from Random(crc32(seed, tree, s, property)) with fixed weights. A session "
+                "its keys from Random(crc32(seed, tree, s, property)) with fixed weights. C17 adds, for every tree in which "
+                "an option or a choice is defined more than once, two fixed sessions (parser 1 and 2): jump-to (key /) to every "
+                "menu node of every multiply defined option and choice, three passes separated by key a (show-all). A session "
                 "stops at its first violation; the first history of each case class is reduced by greedy removal of keys "
                 "and the smallest one over all trees is reported."),
             "contracts": CONTRACTS[prop],
